@@ -3,26 +3,26 @@
 import json, re, glob, os
 root = os.path.dirname(os.path.dirname(os.path.abspath(__file__)))
 desc = {
- 'C01': 'scripts <= 5, later incarnations <= 2, crash chains <= 2, capacities 2/3/100, every storage boundary; chain unit: the persistent configurations of C03\'s driver (real retry sender, shutdown) judged by C01\'s clause',
- 'C02': 'drivers D1-D8 x memory/persistent (+ D3/D3b/D3c wait-for-result, D6 bare cond), bound 2 (bound 1 for the 6-7-thread ones); seq unit: ALL operation sequences <= 6 over offer(0..3)/read/done on both queues against the bounded-FIFO model',
- 'C03': 'queue/batch/retry/wait-for-result/persistent configurations incl. failing storage Close and an already-expired shutdown context, bound 1 (+ free backend answers for the split-request drivers), recovery epilogue on the same storage',
- 'C04': 'shape universe x sequences <= 2 x items/bytes limits (ltm, profiles); the real defaultBatcher under the scheduler: request sequences <= 2 (+ oversized-last-item and empty-request sequences) x 10 (min,max,workers) x idle x {tagged errors at bound 1, no failure, every single poisoned item} with a completion-callback ledger',
- 'C05': 'back-off configs x backend outcome sequences <= 5 (11 outcomes incl. joined-permanent, attempt-expired) x wake-ups x extreme random draws, second request after shutdown',
+ 'C01': "scripts <= 5, later incarnations <= 2, crash chains <= 2, capacities 2/3/100, every storage boundary; chain unit: the persistent configurations of C03's driver (real retry sender, shutdown) judged by C01's clause, plus death at EVERY storage boundary of concurrent executions (2 consumers, concurrent shutdown, holding backend; storage calls are scheduling points; recovery memoised per storage image)",
+ 'C02': 'drivers D1-D8 x memory/persistent (+ D3/D3b/D3c wait-for-result, D6 bare cond), bound 2 (bound 1 for the 6-7-thread ones), generated family G (kind x capacity x block x wait-for-result x patterns x shutdown mode) at bound 1; seq unit: ALL operation sequences <= 6 over offer(0..3)/read/done on both queues against the bounded-FIFO model',
+ 'C03': '33 queue/batch/retry/wait-for-result/persistent configurations incl. disabled queue, per-attempt timeout (virtual context deadline) with slow backends, idle period before Shutdown (flush timer due), failing storage Close, already-expired shutdown context, bound 1 (+ free backend answers for the split-request drivers), recovery epilogue on the same storage',
+ 'C04': 'shape universe x sequences <= 2 x items/bytes limits, items without content (ltm, profiles); the real defaultBatcher under the scheduler: request sequences <= 2 (+ oversized-last-item and empty-request sequences) x 10 (min,max,workers) x idle x {tagged errors at bound 1, no failure, every single poisoned item - with schedules where two flushes overlap} with a completion-callback ledger; layer 3: the real request types of all four signals inside the real batcher',
+ 'C05': 'back-off configs x backend outcome sequences <= 5 (12 outcomes incl. joined-permanent, attempt-expired, slow-transient) x wake-ups x extreme random draws, second request after shutdown',
  'C06': 'consumer vectors <= 4 x RO/mutable input x 4 signals on the fan-out consumers and, same enumeration, through the connector routers; the real pipeline graph: 32 presence x 512 capability assignments of a 9-component topology x 4 signals with a path-trail oracle',
- 'C07': 'programs depth 4/3 on 31 slice types, Value/Map programs depth 4 (incl. mutating RemoveIf predicates), read-only sweep with a mutable twin (mutators panic, copy OUT works), struct-level CopyTo sweep over every slice of a fully populated payload',
- 'C08': '1-deviation universe (value-carrying element followed by a default one), spellings (int64 as number, enum names incl. the zero member), legacy wire form, bytes <= 3, JSON tokens <= 4; plain codecs + the four *otlp request/response wrappers',
- 'C09': 'all configurations of three pipelines over the option list (0-3 processors, two of them named p1 and P1: identifiers are case-sensitive, a second order and 4 in C09; connector positions; router-aware connectors; 6 connector direction sets), each accepted one also with in-place mutating processors',
+ 'C07': 'programs depth 4/3 on 31 slice types, Value/Map programs depth 4 (incl. mutating RemoveIf predicates), programs depth 4 on the 7 primitive slice types (capacity in the alphabet), read-only sweep with a mutable twin (mutators panic, copy OUT works and is independent under in-place writes), struct-level CopyTo sweep over every slice of a fully populated payload',
+ 'C08': '1-deviation universe (value-carrying element followed by a default one), spellings (int64 as number, enum names incl. the zero member), legacy wire form, bytes <= 3, JSON tokens <= 4; plain codecs + the four *otlp request/response wrappers; json-concurrent: two overlapping decodes after rejected inputs, 8 entry points, bound 2',
+ 'C09': 'all configurations of three pipelines over the option list (0-3 processors, two of them named p1 and P1: identifiers are case-sensitive, a second order and 4 in C09; connector positions; router-aware connectors; 6 connector direction sets), each accepted one also with in-place mutating processors; two-connector sweep under both map iteration orders; routers under concurrent use (race pass)',
  'C10': 'accepted topologies x every single failure (graph); the real service.Service: extension DAGs <= 3, 4 topologies with cross-signal shared components x every single failure x every tie-breaking of one topological sort',
- 'C11': 'report sequences <= 5 / <= 4 per instance, concurrent drivers bound 2, late-attach enumeration <= 6 reports incl. repeats, the real Service with every extension a status watcher (service-watchers)',
- 'C12': 'strings <= 4 tokens x2 (with/without default scheme), containers, typed provider values (incl. null, surrounding whitespace, maps containing references), merge lists <= 3',
- 'C13': '242 setting paths written one at a time and in pairs (secrets must show redacted; structured reader lists), unknown-key nodes, reference/shape faults and positive controls, re-load of the pristine seed',
- 'C14': 'renderings (fmt verbs x flags, String/GoString, text/binary/JSON/YAML, confmap Marshal, holders incl. any-typed slots) x secrets incl. provider-supplied and YAML-special ones; unmarshal target shapes',
- 'C15': 'transport/encoding x compression (incl. levels) x 4 signals x consumer outcomes x payloads (small, structured, 1.2 MiB, empty, shaped no-items) x auth; raw malformed requests; wire status/Retry-After; concurrent HTTP handlers under the scheduler',
- 'C16': 'algorithm x level x content class x size x limit x every subset of the 7 decoder names, known/unknown length, large bodies, replay through GetBody',
- 'C17': 'split cases (3 180) + concurrent configurations (arrivals spread over virtual time, trickle, timeout 0, metadata keys with injective value lists, cardinality limit) bound 1',
- 'C18': 'measurement sequences <= 3 x 9 configs (limits up to >= 4 GiB), life-cycle drivers bound 2 (holding / no-hold / refusing), processor and extension grids',
- 'C19': 'receiver/processor/scraper grids + exporter histories: 9 configurations (queue, retry, batch incl. size-weighted, persistent, cancelled caller) x sizes x backend scripts x 3 signals',
- 'C20': '(generation plan, event history <= 2) pairs, bound 2; two locations with one scheme, a provider reached by reference, an idle provider',
+ 'C11': 'report sequences <= 5 / <= 4 per instance incl. error statuses with a new cause each time, concurrent drivers bound 2, late-attach enumeration <= 6 reports incl. repeats, the real Service with every extension a status watcher (service-watchers)',
+ 'C12': 'strings <= 4 tokens x2 (with/without default scheme), containers, typed provider values (incl. null, surrounding whitespace, maps containing references, structured values with 3-4 references into string fields), provider-held instances referenced and resolved twice, histories of <= 3 provider-table versions on one resolver, merge lists <= 3',
+ 'C13': '242 setting paths written one at a time and in pairs (secrets must show redacted; structured reader lists), unknown-key nodes, reference/shape faults (incl. ids defined under another kind) and positive controls, re-load of the pristine seed',
+ 'C14': 'renderings (fmt verbs x flags, String/GoString, text/binary/JSON/YAML, confmap Marshal, holders incl. any-typed slots and custom marshalers) x secrets incl. provider-supplied and YAML-special ones; unmarshal target shapes',
+ 'C15': 'transport/encoding x compression (incl. levels) x 4 signals x consumer outcomes x payloads (small, structured, 1.2 MiB, empty, shaped no-items) x auth; raw malformed requests incl. every strict prefix of compressed streams; wire status/Retry-After; concurrent HTTP handlers under the scheduler',
+ 'C16': 'algorithm x level x content class x size x limit x every subset of the 7 decoder names, other spellings of the encoding name, known/unknown length, large bodies, replay through GetBody, server-side and client-side overlap by nesting',
+ 'C17': 'split cases (3 180) + concurrent configurations (arrivals spread over virtual time, trickle, timeout 0, metadata keys with injective value lists, cardinality limit, downstream refusals) bound 1 + every metadata arrival sequence <= 4 x limit 0/1/2 against an admission reference',
+ 'C18': 'measurement sequences <= 3 x 17 configs (both limit families set, limits up to >= 4 GiB), life-cycle drivers bound 2 (holding / no-hold / refusing), processor and extension grids',
+ 'C19': 'receiver/processor/scraper grids x tracing mode (recording / no-op tracer / unsampled parent) + exporter histories: 9 configurations (queue, retry, batch incl. size-weighted, persistent, cancelled caller) x sizes x backend scripts x 3 signals',
+ 'C20': '(generation plan, event history <= 2) pairs, bound 2, notifications handed over by default, slow-start plan, provider-log histories; two locations with one scheme, a provider reached by reference, an idle provider',
 }
 rows = []
 for hp in sorted(glob.glob(os.path.join(root, 'harness', 'C*', 'harness.json'))):
